@@ -124,7 +124,7 @@ def make_filter(vdata, nhash, tweak, flags):
 
 
 def _elem(rng):
-    n = rng.choice([0, 1, 2, 3, 4, 5, 7, 8, 20, 32, 33, 36])
+    n = rng.choice([0, 1, 2, 3, 4, 5, 7, 8, 20, 32, 33, 36, 75, 255, 256, 257, 258, 259, 519, 520, 1023, 1025, 65537])
     return _bj(bytes(rng.getrandbits(8) for _ in range(n)))
 
 
